@@ -1,2 +1,145 @@
-(* C04 — stub: no theorems yet *)
-From Zap Require Import Base.Wire C04.Model C04.Proofs.
+(* C04 -- concurrent logging delivers every entry exactly once as an intact line.
+   Only statements closed by [exact]; the proofs are in C04/{Atomic,Merge,Proofs}.v.
+
+   Reading guide.  [cfg] is the list of branches of the tee (one ioCore each):
+   [KLocked k] = zapcore.Lock / zap.CombineWriteSyncers / zap.Open around k
+   underlying sinks, [KBuffered size] = a BufferedWriteSyncer.  [prog] is any number
+   of threads, each any sequence of log calls (any lines, handed to the underlying
+   sinks in any chunks, any level), Logger.Sync calls and flush ticks.  [sched] is
+   any schedule (list of thread ids).  [zrun cfg prog sched] runs the instruction
+   level interleaving machine, in which an underlying write is NOT atomic.
+   [StreamOk ths s]: the byte stream s is the concatenation of a merge of the
+   per-thread line lists ths -- each line intact, none torn, interleaved, merged,
+   duplicated or lost, and each thread's lines in the order it logged them. *)
+From Coq Require Import List Bool Arith.
+From Coq.Strings Require Import Byte.
+Import ListNotations.
+From Zap Require Import Base.Wire C04.Model C04.Atomic C04.Merge C04.Proofs.
+
+(* the generic mutual-exclusion theorem: for ANY program whose actions sit inside
+   Lock l .. Unlock l of their object, ANY number of threads and locks, every complete
+   schedule leaves every object in the state of a serial execution of whole critical
+   sections in an order merging the threads' orders *)
+Theorem C04_atomicity :
+  forall (St Act : Type) (act : Act -> St -> St) (Item : Type) (sec_of : Item -> nat * list Act)
+         (prog : nat -> list Item) (o0 : nat -> St) (sched : list nat),
+    complete St Act (run St Act act (code Act Item sec_of prog) o0 sched) ->
+    forall l, exists lab : list (nat * Item),
+      (forall t, owned t lab = on_lock Act Item sec_of l (prog t)) /\
+      obj (run St Act act (code Act Item sec_of prog) o0 sched) l =
+        exec_items St Act act Item sec_of (map snd lab) (o0 l).
+Proof. exact atomicity. Qed.
+Print Assumptions C04_atomicity.
+
+(* Lock(sink), CombineWriteSyncers, Open: for every configuration, program and complete
+   schedule, every underlying sink of a locked branch holds exactly a merge of the
+   submitted lines (the same merge for all sinks of the branch), even without a final Sync *)
+Theorem C04_locked :
+  forall cfg prog sched j k,
+    nth_error cfg j = Some (KLocked k) -> zcomplete (zrun cfg prog sched) ->
+    exists sigma, MergeOf (prog_lines j prog) sigma /\
+                  forall u, u < k -> outs (obj (zrun cfg prog sched) j) u = concat sigma.
+Proof. exact locked_thm. Qed.
+Print Assumptions C04_locked.
+
+(* BufferedWriteSyncer of any size (entries larger than the buffer included), with
+   concurrent Sync calls and flush ticks: after the final Sync the sink holds a merge of
+   the submitted lines; before it, a whole number of lines of that merge *)
+Theorem C04_buffered :
+  forall cfg prog sched j size,
+    nth_error cfg j = Some (KBuffered size) -> zcomplete (zrun cfg prog sched) ->
+    exists sigma, MergeOf (prog_lines j prog) sigma /\
+                  final_out (zrun cfg prog sched) j 0 = concat sigma /\
+                  exists n, outs (obj (zrun cfg prog sched) j) 0 = concat (firstn n sigma).
+Proof. exact buffered_thm. Qed.
+Print Assumptions C04_buffered.
+
+(* every branch of a tee, whatever its sink, receives the full set: after the final Sync
+   every underlying sink of every branch holds a merge of the lines submitted to that branch *)
+Theorem C04_tee :
+  forall cfg prog sched,
+    zcomplete (zrun cfg prog sched) ->
+    forall j kd, nth_error cfg j = Some kd ->
+    exists sigma, MergeOf (prog_lines j prog) sigma /\
+                  forall u, u < nsinks kd -> final_out (zrun cfg prog sched) j u = concat sigma.
+Proof. exact tee_thm. Qed.
+Print Assumptions C04_tee.
+
+(* not only at the end: at every moment of every schedule (complete or not) at which the
+   mutex of a branch is free, its sinks hold whole lines only -- a merge of prefixes of
+   the threads' lines (nothing torn at a crash point between sink calls) *)
+Theorem C04_quiescent :
+  forall cfg prog sched j kd,
+    nth_error cfg j = Some kd -> holder (zrun cfg prog sched) j = None ->
+    exists (pre : nat -> list bytes) sigma,
+      (forall t, exists rest, pre t ++ rest = prog_lines j prog t) /\ MergeOf pre sigma /\
+      match kd with
+      | KLocked k => forall u, u < k -> outs (obj (zrun cfg prog sched) j) u = concat sigma
+      | KBuffered _ => exists n, outs (obj (zrun cfg prog sched) j) 0 = concat (firstn n sigma)
+      end.
+Proof. exact quiescent_thm. Qed.
+Print Assumptions C04_quiescent.
+
+(* the hypothesis "complete schedule" is satisfiable for every configuration and program
+   (running the threads one after the other never blocks), so none of the theorems above is vacuous *)
+Theorem C04_complete_exists : forall cfg prog, exists sched, zcomplete (zrun cfg prog sched).
+Proof. exact complete_exists_thm. Qed.
+Print Assumptions C04_complete_exists.
+
+(* the oracle run on the real sinks' bytes is the specification: sound, and complete on
+   newline-terminated lines *)
+Theorem C04_is_merge_sound :
+  forall ths s, check_stream ths s = true -> StreamOk (fun t => nth t ths []) s.
+Proof. exact check_stream_sound. Qed.
+Print Assumptions C04_is_merge_sound.
+
+Theorem C04_is_merge_complete :
+  forall ths s, (forall t l, In l (nth t ths []) -> wf_line l = true) ->
+    StreamOk (fun t => nth t ths []) s -> check_stream ths s = true.
+Proof. exact check_stream_complete. Qed.
+Print Assumptions C04_is_merge_complete.
+
+(* the model is able to express the failures the property excludes *)
+(* without the mutex two lines tear *)
+Theorem C04_unlocked_refuted :
+  exists cfg prog sched,
+    let s := run sinkst sact sact_run (zcode_nolock cfg prog) (fun _ => sink0) sched in
+    complete sinkst sact s /\ ~ StreamOk (prog_lines 0 prog) (outs (obj s 0) 0).
+Proof. exact unlocked_refuted. Qed.
+Print Assumptions C04_unlocked_refuted.
+
+(* if ioCore.Write handed an entry to the sink in two calls, lines of different threads interleave *)
+Theorem C04_two_writes_refuted :
+  exists cfg prog sched,
+    let s := run sinkst sact sact_run (zcode_two cfg prog) (fun _ => sink0) sched in
+    complete sinkst sact s /\ ~ StreamOk (prog_lines 0 prog) (outs (obj s 0) 0).
+Proof. exact two_writes_refuted. Qed.
+Print Assumptions C04_two_writes_refuted.
+
+(* without zap's flush-before-write rule bufio splits a line across two sink writes *)
+Theorem C04_noflush_refuted :
+  exists size p q,
+    let x := bws_write_noflush size (bws_write_noflush size sink0 p) q in
+    wf_line p = true /\ wf_line q = true /\ ~ exists n, outs x 0 = concat (firstn n [p; q]).
+Proof. exact noflush_refuted. Qed.
+Print Assumptions C04_noflush_refuted.
+
+(* the driver's oracle accepts what the model computes, for every well-formed case *)
+Theorem C04_wire : forall i, wf i = true -> spec i (model i) = true.
+Proof. exact spec_model. Qed.
+Print Assumptions C04_wire.
+
+(* non-vacuity: a tee of Lock(sink) and a 4-byte BufferedWriteSyncer, two threads, one
+   complete schedule (thread 0 entirely, then thread 1): both branches hold "a\nb\n" *)
+Definition ex_cfg := [KLocked 1; KBuffered 4].
+Definition ex_ent (c : byte) := {| echunks := [[[c]; [x0a]]; [[c; x0a]]]; esync := false |}.
+Definition ex_prog := [[OLog (ex_ent x61); OSync]; [OLog (ex_ent x62)]].
+Definition ex_sched := repeat 0 20 ++ repeat 1 20.
+Example C04_example_complete : forall t, conts (zrun ex_cfg ex_prog ex_sched) t = [].
+Proof. intros [|[|[|t]]]; vm_compute; reflexivity. Qed.
+Example C04_example_streams :
+  outs (obj (zrun ex_cfg ex_prog ex_sched) 0) 0 = [x61; x0a; x62; x0a] /\
+  final_out (zrun ex_cfg ex_prog ex_sched) 1 0 = [x61; x0a; x62; x0a] /\
+  check_stream (map (thread_lines 0) ex_prog) [x61; x0a; x62; x0a] = true /\
+  check_stream (map (thread_lines 0) ex_prog) [x61; x62; x0a; x0a] = false.
+Proof. vm_compute. repeat split. Qed.
